@@ -30,6 +30,10 @@ type Program struct {
 	typePkgs []*types.Package
 	ufs      map[string]ufDecl
 	srcLines map[string][]string
+
+	allFuncs  []*ssa.Function // the functions of package gmars
+	fnValues  []*ssa.Function // those whose value is taken (candidates of dynamic calls)
+	fnValOnce sync.Once
 }
 
 func funcName(f *ssa.Function) string {
@@ -201,7 +205,17 @@ func (e *Enc) refsBelow(t types.Type, v Term, alloc string) Term {
 func (e *Enc) heapTypingAlloc(name string, h Term, alloc string) string {
 	heapTypeMu.Lock()
 	t := heapTypes[name]
+	mvT, mvK := mapElemTypes[name], mapKeySorts[name]
 	heapTypeMu.Unlock()
+	if strings.HasPrefix(name, "MV.") && mvT != nil && alloc != "" {
+		// values stored in a map: Go values of their type whose references are allocated
+		cell := Term{app("select", app("select", h.S, "r!"), "k!"), e.reg.sortOf(mvT)}
+		f := tAnd(e.reg.rangeFact(mvT, cell), e.refsBelow(mvT, cell, alloc))
+		if f.S == "true" {
+			return ""
+		}
+		return fmt.Sprintf("(assert (forall ((r! Int) (k! %s)) (! (=> (and (<= 0 r!) (< r! %s)) %s) :pattern (%s))))", mvK, alloc, f.S, cell.S)
+	}
 	if t == nil {
 		return ""
 	}
